@@ -39,7 +39,7 @@ func checkC08(c *Ctx) {
 	c.Level = "fault_enumeration"
 	c.rule = "fault enumeration: for chosen blocks h of generated histories (stake, governance and EVM activity) and every named crash point (entry/exit of BeginBlock, DeliverTx, EndBlock, and after each durable write of Commit: 3 governance ledgers, account ledger, 3 stake ledgers, validator record, reward-hash record, EVM state commit, trie commit, root record, last-block context, last-block height) the replica SIGKILLs itself at that instant while executing block h; a new process on the same directory must open, report (h-1,hash(h-1)) or (h,hash(h)), replay the interrupted block with the reference results and continue with the reference app hashes for two more blocks; a case is one (history, block, point) triple at which the process really died; distinct = distinct triples"
 	c.assumptions = []string{"process death (SIGKILL), not power loss: data already handed to the kernel survives; missing fsyncs are not exercised"}
-	nh := c.N(3, 8)
+	nh := c.N(5, 8)
 	c.Parallel(nh, 0, func(i int) {
 		rng := c.Rng("c08", i)
 		o := twinOpts(c, "C08", i)
